@@ -144,7 +144,7 @@ def check_ok(res, what):
 
 
 def validate_shards(root, cfg, records, header=None, shards=16, tag="V", extra_files=None,
-                    timeout=3600, min_per_shard=200, xmx="2g", deque=False):
+                    timeout=3600, min_per_shard=200, xmx="2g", deque=False, max_per_shard=2500):
     """Batch trace validation: split `records` (list of dicts, each with 'tid') into shards,
     run one single-worker TLC per shard in parallel, return (verdicts, states, transitions, wall).
 
@@ -154,7 +154,12 @@ def validate_shards(root, cfg, records, header=None, shards=16, tag="V", extra_f
     n = len(records)
     if n == 0:
         return [], 0, 0, 0.0
+    workers = shards
     shards = max(1, min(shards, n // min_per_shard or 1))
+    # TLC reads a shard's ndjson file into one sequence (deep recursion for very long files): keep shards bounded and
+    # run them sixteen at a time
+    if n // shards > max_per_shard:
+        shards = -(-n // max_per_shard)
     groups = [records[i::shards] for i in range(shards)]
     d = scratch_dir("mtverif_val_")
     t0 = time.time()
@@ -183,7 +188,7 @@ def validate_shards(root, cfg, records, header=None, shards=16, tag="V", extra_f
             return res
 
         verdicts, states, trans = [], 0, 0
-        with concurrent.futures.ThreadPoolExecutor(max_workers=shards) as ex:
+        with concurrent.futures.ThreadPoolExecutor(max_workers=min(shards, max(1, workers))) as ex:
             for res in ex.map(one, range(shards)):
                 verdicts.extend(res.printed(tag))
                 states += res.distinct
